@@ -5,7 +5,7 @@
    (Python's re / str.lower on the concrete text).  Model/Peg.v interprets the table.
    All statements below are for EVERY table, text, oracle, fuel and both memoization settings. *)
 From TxV Require Import Core.Base Model.PegSyntax Model.Peg Model.KwDefs Gen.SrcKw Model.Kw
-     Proofs.PegCongr Proofs.KwProofs Proofs.KwWitness.
+     Proofs.PegCongr Proofs.KwProofs Proofs.KwCheckProofs Proofs.KwWitness.
 
 (* (1) What visit_str_match / visit_re_match of the CURRENT source construct under ignore_case=True:
    every string literal (plain or keyword-like under autokwd) and every user regex gets the flag.
@@ -41,6 +41,15 @@ Theorem C20_invariant : forall lower g cfg (O : list N -> nat -> nat -> option n
   run g cfg (O s') memo fuel s' = run g cfg (O s) memo fuel s.
 Proof. exact icase_invariant. Qed.
 Print Assumptions C20_invariant.
+
+(* (3') The decidable instance check the harness evaluates on every (original, variant) pair is sound:
+   when it says [true] for the dumped table, the two oracle tables computed by Python and the two
+   texts, the two parses coincide (for every fuel and memoization setting). *)
+Theorem C20_check_sound : forall lower g cfg tbl tbl' s s' memo fuel,
+  c20_hyp_b lower g cfg tbl tbl' s s' = true ->
+  run g cfg (orc_of tbl') memo fuel s' = run g cfg (orc_of tbl) memo fuel s.
+Proof. exact c20_hyp_sound. Qed.
+Print Assumptions C20_check_sound.
 
 (* (4) The two literal terminals textX itself defines are case blind under ignore_case:
    StrMatch (lowered comparison) and the keyword regex <literal>\b (given that \w does not
@@ -91,6 +100,11 @@ Proof.
     [intros nid nd o _ _ s s' _ p; reflexivity | exact Hcv | exact Hws].
 Qed.
 Print Assumptions C20_nonvacuous.
+
+Example C20_check_nonvacuous :
+  c20_hyp_b ascii_lower g_begin cfg_default tbl_begin tbl_begin in_begin1 in_begin2 = true.
+Proof. vm_compute. reflexivity. Qed.
+Print Assumptions C20_check_nonvacuous.
 
 Example C20_literals_nonvacuous :
   str_match ascii_lower true [105;102]%N [73;70;32;120]%N 0 = Some 2 /\
